@@ -254,8 +254,13 @@ func H_C08_phase_shift_written_back() {
 	vfPh.starts = [4]int{}
 	vfPh.computeOK = vfBool("dkg-succeeds")
 	vfSaved = nil
+	vfCalls = nil
 	err := st.shiftPhases(context.Background(), nil, height)
 	vfAssert(err == nil, "phase-shift-succeeds")
+	// all keypers must decide who is corrupt from the same data: commitments, accusations and
+	// apologies enter the key generation only as chain events, never directly from the keyper's
+	// own phase transitions (an own accusation that does not make it into a block must not count)
+	vfAssert(len(vfCalls) == 0, "phase-transitions-feed-no-input-into-the-key-generation")
 	serr := st.Save(context.Background(), nil)
 	vfAssert(serr == nil, "save-succeeds")
 	target := st.phaseLength.GetPhaseAtHeight(height, dkg.startHeight)
@@ -540,4 +545,45 @@ func H_C07_evaluations_sent_to_their_receivers() {
 		vfAssert(vfPh.scheduled[a].GetPolyEval().Eon < vfPh.scheduled[a+1].GetPolyEval().Eon, "one-message-per-eon")
 	}
 	vfReach("sent")
+}
+
+// C07 (phase is a pure function of the height, for EVERY active key generation): two key
+// generations overlap (the second eon started before the first one finished). One shiftPhases at
+// an arbitrary height, whatever order the map of active instances is visited in, moves each of them
+// to the phase of that height - also when the other one is finalised and removed in the same call.
+func H_C07_every_active_eon_is_shifted() {
+	ks := vfKeypers(vfParam("keypers", 2))
+	e1, e2 := vfU64("eon1"), vfU64("eon2")
+	vfAssume(e1 < e2 && e2 < 1<<62)
+	p1, p2 := puredkg.Phase(vfLen("phase1", 3)), puredkg.Phase(vfLen("phase2", 3))
+	own := ks[0]
+	st := vfState(own, e1, ks, p1)
+	a1 := st.dkg[e1]
+	a2 := &ActiveDKG{pure: &puredkg.PureDKG{Phase: p2, Eon: e2, NumKeypers: uint64(len(ks)), Threshold: 1, Keyper: 0}, keypers: ks}
+	st.dkg[e2] = a2
+	a1.startHeight, a2.startHeight = vfI64("start-height1"), vfI64("start-height2")
+	height := vfI64("height")
+	vfAssume(a1.startHeight >= 0 && a1.startHeight <= a2.startHeight && a2.startHeight < 1<<40 && height >= 0 && height < 1<<40)
+	vfPh.scheduled, vfPh.commitMsgs, vfPh.polyEvals, vfPh.deleted, vfPh.results = nil, nil, 0, nil, nil
+	vfPh.starts = [4]int{}
+	vfPh.computeOK = vfBool("dkg-succeeds")
+	vfSaved = nil
+	err := st.shiftPhases(context.Background(), nil, height)
+	vfAssert(err == nil, "phase-shift-succeeds")
+	t1 := st.phaseLength.GetPhaseAtHeight(height, a1.startHeight)
+	t2 := st.phaseLength.GetPhaseAtHeight(height, a2.startHeight)
+	if t1 < p1 {
+		t1 = p1
+	}
+	if t2 < p2 {
+		t2 = p2
+	}
+	vfAssert(a1.pure.Phase == t1, "first-eon-is-in-the-phase-of-the-height")
+	vfAssert(a2.pure.Phase == t2, "second-eon-is-in-the-phase-of-the-height")
+	if t1 == puredkg.Finalized && p1 != puredkg.Finalized {
+		vfReach("first-eon-finalised-in-this-call")
+		if t2 != p2 {
+			vfReach("second-eon-moved-in-the-same-call")
+		}
+	}
 }
